@@ -110,8 +110,8 @@ VAns(e) ==
       ok == e.kind = "ok"
       M2 == [S.M EXCEPT ![s] = row]
       B2 == S.B \cup {<<s, sh>> : sh \in newbad}
-      vw == ViewOf(IF ok THEN "ok" ELSE "fail", Ls, row, newbad)
-      bo == ok /\ newbad = {} /\ ~HoldsNothing(Ls) /\ \A sh \in Shnums : row[sh] = 0
+      vw == ViewOf(V, IF ok THEN "ok" ELSE "fail", Ls, row, newbad)
+      bo == ok /\ newbad = {} /\ ~HoldsNothing(Ls) /\ (\A sh \in Shnums : row[sh] = 0 /\ ~Corrupt(V, Ls[sh]))
       np2 == u.needpriv /\ ~e.priv
       T == [S EXCEPT !.M = M2, !.B = B2,
                      !.u.ans = IF ok THEN u.ans \cup {s} ELSE u.ans,
